@@ -8,7 +8,7 @@ import re
 import subprocess
 
 VERIF = os.path.dirname(os.path.dirname(os.path.abspath(__file__)))
-REPO_INC = '/repo/code/include'
+REPO_INC = os.path.join(os.environ.get('VERIF_REPO') or '/repo', 'code/include')   # VERIF_REPO: development runs against a scratch worktree
 
 PRE = '''#define RLBOX_SINGLE_THREADED_INVOCATIONS
 #define RLBOX_USE_EXCEPTIONS
